@@ -40,6 +40,8 @@ func init() {
 			{ID: "C09.20", Desc: "a background validation writes back into the list its position refers to (another variant keeps its reference and stays a HIT)", Run: func(c *Ctx) { ruleC08_9(c); renameRule(c, "C08.9", "C09.20") }, MinSites: 1},
 			{ID: "C09.21", Desc: "a Date ahead of the local clock does not age the response (apparent age clamped at zero, all RFC terms)", Run: func(c *Ctx) { ruleC01_4(c); renameRule(c, "C01.4", "C09.21") }, MinSites: 3},
 			{ID: "C09.22", Desc: "min-fresh is measured against the freshness lifetime (Expires, heuristic), not the max-age value", Run: func(c *Ctx) { ruleMinFreshAgainstLifetime(c, "C09.22") }, MinSites: 1},
+			{ID: "C09.23", Desc: "the lifetime comes from max-age, then Expires, then the heuristic (s-maxage is not a private cache's)", Run: func(c *Ctx) { ruleC01_1(c); renameRule(c, "C01.1", "C09.23") }, MinSites: 1},
+			{ID: "C09.24", Desc: "a response on another port does not evict the entry (the written port precedes the default)", Run: func(c *Ctx) { ruleWrittenPortBeforeDefault(c, "C09.24") }, MinSites: 1},
 		},
 	})
 }
